@@ -131,7 +131,7 @@ func init() {
 						return false
 					}
 					if a.Kind == "U" {
-						for _, i := range allButVerrs {
+						for _, i := range urlFieldsOnly {
 							if a.Fields[i] != b.Fields[i] {
 								return false
 							}
@@ -286,7 +286,7 @@ func init() {
 					self := guard(func() Obs { return implObs(B.Parse(href)) })
 					bad := self.Kind != "U"
 					if !bad {
-						for _, k := range allButVerrs {
+						for _, k := range urlFieldsOnly {
 							if self.Fields[k] != alone.Fields[k] {
 								bad = true
 							}
